@@ -185,3 +185,58 @@ def run(ctx):
                           "" if direct else " through a local"),
                       desc="%s: `%s` is spelling-independent" % (f.short, norm(t)[:40]))
     ctx.floor("R4.2", "branch conditions / comparisons inspected", n_tests, 40)
+
+    ctx.rule("R4.3", "the delimiter scan decides on the blank-stripped form of the accumulated text")
+    delimiter_scan_rule(ctx, "R4.3")
+
+
+def delimiter_scan_rule(ctx, rule):
+    """R4.3 (also serves C01): in the delimiter scanner every decision that looks at the accumulated token text
+    looks at its blank-stripped form (blank-insensitive scan)."""
+    prog = ctx.prog
+    sv = prog.find_class("StringValidator")
+    f = sv.methods.get("check_delimiter_issues_in_hed_string")
+    if f is None:
+        raise AnalysisError("anchor StringValidator.check_delimiter_issues_in_hed_string vanished")
+    ctx.saw(f)
+    loopvars = set()
+    for lp in walk_no_nested(f.node):
+        if isinstance(lp, ast.For):
+            loopvars |= {x.id for x in ast.walk(lp.target) if isinstance(x, ast.Name)}
+    buffers = set()
+    guarded_appends = {}
+    for n in walk_no_nested(f.node):
+        if isinstance(n, ast.AugAssign) and isinstance(n.op, ast.Add) and isinstance(n.target, ast.Name) and \
+                isinstance(n.value, ast.Name) and n.value.id in loopvars:
+            buffers.add(n.target.id)
+    if not buffers:
+        raise AnalysisError("R4.3 anchor: no accumulated token buffer (`buf += char`) in the delimiter scanner")
+    # a scanner that never appends blanks needs no stripping
+    from sa.dom import view
+    v = view(ctx, f)
+    never_blank = set()
+    for b in buffers:
+        apps = [n for n in v.cfg.nodes if n.kind == "stmt" and isinstance(n.ast, ast.AugAssign) and
+                isinstance(n.ast.target, ast.Name) and n.ast.target.id == b]
+        if apps and all(v.guard_for(a, lambda t: "isspace" in norm(t) or ".strip()" in norm(t)) is not None for a in apps):
+            never_blank.add(b)
+    n_cmp = 0
+    for n in walk_no_nested(f.node):
+        tests = []
+        if isinstance(n, ast.Compare) and any(isinstance(o, (ast.Eq, ast.NotEq)) for o in n.ops):
+            tests = [n.left] + list(n.comparators)
+        elif isinstance(n, (ast.If, ast.While)) and isinstance(n.test, (ast.Name, ast.UnaryOp)):
+            t = n.test.operand if isinstance(n.test, ast.UnaryOp) else n.test
+            tests = [t]
+        for t in tests:
+            if isinstance(t, ast.Name) and t.id in buffers and t.id not in never_blank:
+                n_cmp += 1
+                ctx.violation(rule, f.qualname, n if isinstance(n, ast.Compare) else n.test, loc(f, n),
+                              "the delimiter scan compares the accumulated text `%s` as written (blanks included) instead "
+                              "of its blank-stripped form: an empty tag written with blanks around it (`Red, ,Blue`, "
+                              "`( , Red)`) is judged differently from the same text without blanks" % t.id)
+            elif isinstance(t, ast.Call) and isinstance(t.func, ast.Attribute) and t.func.attr == "strip" and \
+                    isinstance(t.func.value, ast.Name) and t.func.value.id in buffers:
+                n_cmp += 1
+                ctx.ok(rule, "scanner decision on `%s` uses the blank-stripped text" % norm(t), loc(f, n))
+    ctx.floor(rule, "scanner decisions on the accumulated text", n_cmp, 2)
